@@ -65,7 +65,6 @@ def run(chk):
     recs = chk.generate(MODULE, "C16_gen.cfg", "gen", timeout=3000)
     for v in (["std"] if quick else ["std", "verify", "i64", "asan"]):
         chk.replay(recs, v, "generated whitelist records", soft={"WlSign": ["sig"]}, soft_trace=TRACE)
-    chk.replay(recs, "std", "generated whitelist records, replaced SHA-256 compression", soft={"WlSign": ["sig"]}, soft_trace=TRACE, env={"VH_CUSTOM_SHA": "1"})
     chk.validate(driver(chk, 40 if quick else 400), MODULE, "C16_trace.cfg", "driver", timeout=3000)
     return chk.finish(LEVEL,
         "G: TLC enumerates Cases of C16_Whitelist.tla (counts, signer indices, refusals, bit flips, scalar substitutions, key-list edits, count bytes, "
